@@ -158,15 +158,19 @@ func (i *Interpreter) ProcessPrefixExpression(exp *ast.PrefixExpression, opt *Ex
 		}
 	case "-":
 		switch t := v.(type) {
+		// The operand may be the stored value of a variable: negate a copy, not the operand itself
 		case *value.Integer:
-			t.Value = -t.Value
-			return t, nil
+			n := *t
+			n.Value = -n.Value
+			return &n, nil
 		case *value.Float:
-			t.Value = -t.Value
-			return t, nil
+			n := *t
+			n.Value = -n.Value
+			return &n, nil
 		case *value.RTime:
-			t.Value = -t.Value
-			return t, nil
+			n := *t
+			n.Value = -n.Value
+			return &n, nil
 		default:
 			return value.Null, errors.WithStack(
 				exception.Runtime(&exp.GetMeta().Token, `Unexpected "-" prefix operator for %v`, v),
